@@ -8,7 +8,52 @@ TRUSTED_BASE = [
     "hand transcription of Go stdlib behaviour used by the model (UTF-8 decoding, strings.*, strconv.*, reflect as listed in DESIGN.md §5)",
 ]
 
+WALK_ASSUME = ['reflect (Kind, IsZero, Len, Index, MapRange, pointer stripping, Type().String()/Name()) transcribed on the GoVal tree; values are trees (no cycles)', 'Go map iteration order is unobservable: the driver accepts any order of map entries and of group clauses', 'residual stdlib calls (regexp on user patterns, net.ParseIP, json.Valid, os.Stat, time.Parse, error texts of Atoi/QueryUnescape) are answered by the harness from the stdlib', 'calls whose clause text needs fmt %v of a composite value or reflect.DeepEqual on composites are reported as out of scope (unmodelled), never judged']
+
 CHECKS = {
+
+    "C02": {
+        "modules": ["PGV.Props.C02"], "audits": ["PGV/Audit/C02.lean"],
+        "streams": ["walk", "flat"], "thorough_seeds": 4,
+        "assumptions": WALK_ASSUME,
+        "explanation": "theorems: one rule item = one step of the loop and the loop always continues (no early exit, unknown name = one clause), nil iff nothing written, exactly one trailing separator removed; streams walk/flat compare the WHOLE error string of Struct/Var/Map/Url calls on synthesised types with the model",
+    },
+    "C03": {
+        "modules": ["PGV.Props.C03"], "audits": ["PGV/Audit/C03.lean"],
+        "streams": ["walk-zero", "flat", "iface-probe"], "thorough_seeds": 4,
+        "assumptions": WALK_ASSUME,
+        "explanation": "theorems: required writes its clause iff the value is empty (zero / length 0), supplied values get no clause, every table-dispatched rule is skipped on zero values, missing Map/Url entries violate required; streams compare whole error strings over every kind, zero and non-zero",
+    },
+    "C04": {
+        "modules": ["PGV.Props.C04"], "audits": ["PGV/Audit/C04.lean"],
+        "streams": ["walk-deep", "walk"], "thorough_seeds": 4,
+        "assumptions": WALK_ASSUME,
+        "explanation": "theorems: unmarked / unexported / time fields are never looked at, required/exist descend under Parent.Field, elements are Parent.Field[i], entries Parent.Field[key], nil and zero sub-objects are silent; stream walk-deep: type graphs to depth 6",
+    },
+    "C13": {
+        "modules": ["PGV.Props.C13"], "audits": ["PGV/Audit/C13.lean"],
+        "streams": ["flat", "walk", "walk-deep"], "thorough_seeds": 4,
+        "assumptions": WALK_ASSUME + ["panics inside unmodelled stdlib calls and the Go runtime are outside the theorem (partial): every call of the streams runs under recover and a panic is compared with the model's (panic-free) answer"],
+        "explanation": "theorems C13_total_struct/var/map/url: for every configuration, value tree, rule text (arbitrary bytes) and residual answer the model never ends in a modelled panic (slice expressions of in/re are modelled with Go's bounds checks and shown safe under the code's guards); streams feed nil / typed-nil / wrong-kind inputs and malformed rule text",
+    },
+    "C16": {
+        "modules": ["PGV.Props.C16"], "audits": ["PGV/Audit/C16.lean"],
+        "streams": ["walk-rm", "walk"], "thorough_seeds": 4,
+        "assumptions": WALK_ASSUME + ["global registrations (SetCustomerValidFn) happen once at process start, before any validation"],
+        "explanation": "theorems: rule-set selection for outermost vs nested structs (no leak), effective rule = set's rule instead of the tag rule, unmentioned fields keep the tag, lookup order per-call > registered > built-in, unknown name = one clause and the loop continues; stream walk-rm: typed/unscoped/both/empty sets, tags, local and global functions",
+    },
+    "C17": {
+        "modules": ["PGV.Props.C17"], "audits": ["PGV/Audit/C17.lean"],
+        "streams": ["walk-group", "flat"], "thorough_seeds": 4,
+        "assumptions": WALK_ASSUME,
+        "explanation": "theorems: either violated iff all members empty, botheq iff some member differs, singleton = rule-writing error, groups are exactly the members of one object (scope) with one rule text; stream walk-group: groups in slices, maps, nested objects, Map and Url inputs",
+    },
+    "C18": {
+        "modules": ["PGV.Props.C18"], "audits": ["PGV/Audit/C18.lean"],
+        "streams": ["size", "flat"], "thorough_seeds": 4,
+        "assumptions": WALK_ASSUME + ["known finding F-C03-c: map[string]interface{} values stay Kind Interface", "URL values containing a decoded & or = are truncated (the whole URL is unescaped before splitting): see known findings"],
+        "explanation": "theorems: all walkers dispatch a non-empty value to the same rule function with the same text and value; size-rule verdicts do not depend on the carrier's names; QueryUnescape(QueryEscape s) = s for all byte strings; stream size sends one (rule,value) through Var/Struct(RM)/Struct(tag)/Map/Map(interface{})/[]Map/Url and judges each verdict against the spec",
+    },
     "C01": {
         "modules": ["PGV.Props.C01"],
         "audits": ["PGV/Audit/C01.lean"],
@@ -51,6 +96,42 @@ CHECKS = {
 NOT_YET = {}
 
 MANIFEST_TEXT = {
+
+    "C02": {
+        "technique": "Lean 4 theorems (one-step equations of the rule loops, getError) + differential correspondence on whole error strings",
+        "text": "Theorems for every configuration, field, value, continuation and state: a rule item contributes its own text and the loop continues with the remaining items (built-in, registered, unknown, empty item; struct fields and Var/Map/Url), the error is nil iff nothing was written and otherwise the text minus exactly one separator. The order-preserving concatenation over fields and nested objects is carried by the correspondence: streams walk and flat compare the WHOLE error string (modulo Go map order) of calls on synthesised struct types with the model.",
+        "note": "Trusted: Lean kernel; reflect transcription; correspondence bounds the model=code tie. The full refinement 'walker = render(list of violated instances)' is not yet a single theorem: the step equations are, and the model is run against the code on the whole string.",
+    },
+    "C03": {
+        "technique": "Lean 4 theorems (rule-loop equations for required / zero-skip / missing entries) + differential correspondence",
+        "text": "Theorems (all inputs): required writes its clause exactly when the value is empty (zero, or slice/array/map of length 0) and writes nothing of its own otherwise; every rule dispatched through a function table is skipped on a zero value (struct, Var, Map, Url); a rule key absent from a Map/Url input yields one required clause per required item. Tie: walk-zero, flat and size streams over every kind, zero and non-zero, four entry points.",
+        "note": "Trusted: Lean kernel; IsZero transcription (Go 1.23); correspondence. Known finding F-C03-c (interface-typed map values) is reported, not hidden.",
+    },
+    "C04": {
+        "technique": "Lean 4 theorems (walker equations: reach and path naming) + differential correspondence on deep type graphs",
+        "text": "Theorems (all configurations, values, states): unmarked, unexported and time.Time fields are never looked at; required/exist validate the nested object under Parent.Field, elements under Parent.Field[i] in index order, entries under Parent.Field[key]; nil pointers, zero structs, nil collections and non-struct elements are passed over silently. Tie: walk-deep (graphs to depth 6 through value, *, **, [], [n], map) and walk compare whole error strings.",
+        "note": "Trusted: Lean kernel; reflect transcription; correspondence. Statements are one-step equations of the mutually recursive walker; their composition over a whole tree is exercised by the streams.",
+    },
+    "C13": {
+        "technique": "Lean 4 totality theorems (mutual structural induction over value trees, induction over rule lists) + differential correspondence under recover",
+        "text": "Theorems: for EVERY configuration, value tree (any depth), rule text (arbitrary bytes) and residual answer, Struct/Var/Map/Url of the model never end in a modelled panic (C13_total_*), nor does any function of the rule table (C13_total_rules); the slice expressions of in/include and re are modelled with Go's bounds checks and proved safe under the code's guards; entry guards for nil, typed nil, non-map, nil *string are equations. Partial: panics inside unmodelled stdlib calls / the runtime are outside the theorem; the streams run every call under recover with nil, typed-nil, wrong-kind inputs and malformed rule text.",
+        "note": "Trusted: Lean kernel; which operations can panic is a reading of the Go code (slice expressions, reflect on invalid values) transcribed in the model; correspondence.",
+    },
+    "C16": {
+        "technique": "Lean 4 theorems (rule-set selection, effective rule, function resolution) + differential correspondence",
+        "text": "Theorems: the outermost struct uses its typed set if non-empty else the unscoped one; a nested struct only its own typed set (no leak, also with shared field names); a field's effective rule is the set's non-empty rule instead of the tag rule, else the tag rule under the requested tag; functions resolve per-call, then registered, then built-in; an unknown name yields one clause and the loop continues. Tie: walk-rm stream (typed/unscoped/both/empty sets, three tag names, local and global marker functions that shadow each other).",
+        "note": "Trusted: Lean kernel; reflect.Type identity modelled by the type string; correspondence.",
+    },
+    "C17": {
+        "technique": "Lean 4 theorems (group evaluation and grouping) + differential correspondence",
+        "text": "Theorems: an either group (>=2 members) is violated iff all members are empty; a botheq group iff some member differs from the first; a singleton is a rule-writing error; two members share a group iff they have the same object scope and rule text, and a group holds all such members; a field registers under the path of its object. Tie: walk-group and flat streams (groups repeated in slices, maps, nested objects, Map and Url).",
+        "note": "Trusted: Lean kernel; reflect.DeepEqual modelled for scalars only (composites out of scope); order of group clauses is Go map order (any order accepted).",
+    },
+    "C18": {
+        "technique": "Lean 4 theorems (common dispatch, carrier-independent verdicts for size rules, percent-encoding round trip) + differential correspondence across six carriers",
+        "text": "Theorems: every walker hands a non-empty value to the same rule function with the same text and value; for the eight size rules the verdict is independent of the carrier's object/field names; QueryUnescape(QueryEscape s) = s for every byte string. Tie: stream size sends each (rule, value) through Var, Struct(RM), Struct(tag), Map, Map(interface{}), []Map and Url and judges the implementation's verdict against the spec; flat compares whole strings.",
+        "note": "Trusted: Lean kernel; url.QueryEscape transcribed in the spec; carrier independence of the non-size rules is checked by correspondence only.",
+    },
     "C01": {
         "technique": "Lean 4 theorems (case analysis over kinds, exact integer/dyadic arithmetic) + differential correspondence incl. exhaustive 8-bit window",
         "text": "Theorems for ALL rule texts, bounds and values (no width or size bound): C01_bound_verdict (ge/gt/le/lt), C01_range_verdict (to/oto, min>max included), "
